@@ -76,6 +76,9 @@ pub struct Model {
     pub iterations_changed: usize,
     pub subsumed_touched: usize,
     pub container_changed: usize,
+    /// within one iteration: rows looked up / written, and rows deleted (conflicts are order-dependent => discard)
+    iter_touched: BTreeSet<(usize, Vec<V>)>,
+    iter_deleted: BTreeSet<(usize, Vec<V>)>,
 }
 
 #[derive(Clone, Debug, PartialEq, Eq)]
@@ -177,6 +180,8 @@ impl Model {
             iterations_changed: 0,
             subsumed_touched: 0,
             container_changed: 0,
+            iter_touched: BTreeSet::new(),
+            iter_deleted: BTreeSet::new(),
         }
     }
 
@@ -568,7 +573,7 @@ impl Model {
 
     fn eval_action_term(&mut self, t: &Term, s: &Subst, want: Option<&Ty>) -> MRes<V> {
         match t {
-            Term::Var(v) => s.get(v).cloned().map(|x| self.st.canon(&x)).ok_or_else(|| Stop::Discard(format!("unbound var {v} in action"))),
+            Term::Var(v) => s.get(v).cloned().ok_or_else(|| Stop::Discard(format!("unbound var {v} in action"))),
             Term::I(i) => Ok(V::I(*i)),
             Term::B(b) => Ok(V::B(*b)),
             Term::App(f, args) => {
@@ -576,12 +581,13 @@ impl Model {
                 let mut k = vec![];
                 for (a, ty) in args.iter().zip(decl.args.iter()) {
                     let v = self.eval_action_term(a, s, Some(ty))?;
-                    k.push(self.st.canon(&v));
+                    k.push(v);
                 }
+                self.iter_touched.insert((*f, k.clone()));
                 match &decl.kind {
                     FKind::Ctor { .. } => {
                         if let Some(r) = self.st.tables[*f].get(&k) {
-                            return Ok(self.st.canon(&r.out));
+                            return Ok(r.out.clone());
                         }
                         let Ty::Eq(sort) = decl.out else { return Err(Stop::Discard("ctor with non-eq output".into())) };
                         let id = self.st.fresh(sort);
@@ -638,9 +644,10 @@ impl Model {
                 let mut k = vec![];
                 for (a, ty) in args.iter().zip(decl.args.iter()) {
                     let x = self.eval_action_term(a, s, Some(ty))?;
-                    k.push(self.st.canon(&x));
+                    k.push(x);
                 }
                 let val = self.eval_action_term(v, s, Some(&decl.out))?;
+                self.iter_touched.insert((*f, k.clone()));
                 let FKind::Func { merge } = decl.kind else { return Err(Stop::Discard("set on non-function".into())) };
                 match self.st.tables[*f].get_mut(&k) {
                     None => {
@@ -665,8 +672,9 @@ impl Model {
                 let mut k = vec![];
                 for (a, ty) in args.iter().zip(decl.args.iter()) {
                     let x = self.eval_action_term(a, s, Some(ty))?;
-                    k.push(self.st.canon(&x));
+                    k.push(x);
                 }
+                self.iter_touched.insert((*f, k.clone()));
                 match self.st.tables[*f].get_mut(&k) {
                     Some(r) => r.subsumed = true,
                     None => {
@@ -685,8 +693,9 @@ impl Model {
                 let mut k = vec![];
                 for (a, ty) in args.iter().zip(decl.args.iter()) {
                     let x = self.eval_action_term(a, s, Some(ty))?;
-                    k.push(self.st.canon(&x));
+                    k.push(x);
                 }
+                self.iter_deleted.insert((*f, k.clone()));
                 self.st.tables[*f].remove(&k);
             }
             Action::Panic(m) => return Err(Stop::Error(format!("panic {m}"))),
@@ -718,6 +727,8 @@ impl Model {
     pub fn step(&mut self, rs: Option<usize>) -> MRes<bool> {
         let members = self.ruleset_members(rs);
         let before = self.st.clone();
+        self.iter_touched.clear();
+        self.iter_deleted.clear();
         let mut all: Vec<(usize, Vec<Subst>)> = vec![];
         for (ri, r) in self.rules.iter().enumerate() {
             if !members.contains(&r.ruleset) {
@@ -739,6 +750,16 @@ impl Model {
             }
         }
         self.rebuild()?;
+        if !self.iter_deleted.is_empty() {
+            let canon = |m: &Model, set: &BTreeSet<(usize, Vec<V>)>| -> BTreeSet<(usize, Vec<V>)> {
+                set.iter().map(|(f, k)| (*f, k.iter().map(|v| m.st.canon(v)).collect())).collect()
+            };
+            let t = canon(self, &self.iter_touched);
+            let d = canon(self, &self.iter_deleted);
+            if t.intersection(&d).next().is_some() {
+                return Err(Stop::Discard("delete conflicts with a lookup/write of the same row in one iteration (order-dependent)".into()));
+            }
+        }
         if self.st.total_rows() > self.limits.max_rows {
             return Err(Stop::Discard("model state too large".into()));
         }
